@@ -88,8 +88,8 @@ fn s_family(t: &mut Tape, ctx: &mut Ctx) -> Result<(), Failure> {
 
 pub fn streams() -> Vec<Stream> {
     vec![
-        Stream { name: "edits", kind: Kind::Tape { cases: |t: Tier| t.pick(40_000, 1_500_000), max_len: 340, f: s_edits }, isolate: false },
-        Stream { name: "family", kind: Kind::Tape { cases: |t: Tier| t.pick(6_000, 200_000), max_len: 600, f: s_family }, isolate: false },
+        Stream { name: "edits", kind: Kind::Tape { cases: |t: Tier| t.pick(500_000, 10_000_000), max_len: 340, f: s_edits }, isolate: false },
+        Stream { name: "family", kind: Kind::Tape { cases: |t: Tier| t.pick(30_000, 600_000), max_len: 600, f: s_family }, isolate: false },
     ]
 }
 
